@@ -45,6 +45,8 @@ def candidate_programs(seed, tier):
     out = []
     for p in sorted(glob.glob(os.path.join(C.CORPUS, "run", "*.grits"))):
         out.append(("corpus:" + os.path.basename(p), open(p, "rb").read().decode("latin1")))
+    from . import runshapes
+    out.extend(runshapes.programs())
     for i, t in T.harvest_seeds():
         if len(t) < 6000:
             out.append((i, t))
@@ -272,10 +274,14 @@ def collect(b, tier, seed, race=False, max_programs=None, configs=None, timeout_
             d.skipped[tag] += 1
     if max_programs:
         rng = random.Random(seed)
-        corpus = [x for x in keep if x[0].startswith("corpus:")]
-        rest = [x for x in keep if not x[0].startswith("corpus:")]
+        corpus = [x for x in keep if x[0].startswith(("corpus:", "shape:"))]
+        rest = [x for x in keep if not x[0].startswith(("corpus:", "shape:"))]
         rng.shuffle(rest)
-        keep = corpus + rest[:max(0, max_programs - len(corpus))]
+        if max_programs < 40:       # the race-detector suite: a sample of the shapes, every corpus program
+            shapes = [x for x in corpus if x[0].startswith("shape:")]
+            rng.shuffle(shapes)
+            corpus = [x for x in corpus if not x[0].startswith("shape:")] + shapes[:24]
+        keep = corpus + rest[:max(max_programs // 2, max_programs - len(corpus))]
     d.programs = keep
     cases = [(i, "", t) for i, t in keep]
     seeds = [0, 1, 2, 3] if tier == "quick" else [0, 1, 2, 3, 4, 5, 6, 7]
